@@ -258,6 +258,25 @@ func runSerial(progs []program, flavour int) ([][]opResult, map[string]int, int)
 		}
 	}
 	loaded, incs := rc.counts()
+	// generator guard: everything the programs declared in the shared global
+	// namespace must carry a goroutine-unique prefix (or be one of the
+	// idempotent pre-defined module aliases); otherwise two programs would
+	// communicate through it and the serialisability oracle would be unsound
+	ev.Global().IterateKeysString(func(name string) {
+		switch name {
+		case "str:", "math:", "re:", "path:":
+			return
+		}
+		ok := false
+		for _, p := range progs {
+			if strings.HasPrefix(name, p.Prefix+"-") {
+				ok = true
+			}
+		}
+		if !ok {
+			loaded["!shared-global-name "+name] = 1
+		}
+	})
 	return res, loaded, incs
 }
 
@@ -280,11 +299,12 @@ const (
 	sigPartial = "use-concurrent-module-cache:importer-result-differs"
 )
 
-func runBatch(storm bool) func(c *mon.Case) {
+func runBatch(mode int) func(c *mon.Case) {
 	return func(c *mon.Case) {
 		r := c.Rand
 		G := 2 + r.Intn(7)
 		flavour := r.Intn(3)
+		storm := mode == modeUseStorm
 		if storm {
 			G = 4 + r.Intn(5)
 			flavour = flavContended
@@ -292,8 +312,12 @@ func runBatch(storm bool) func(c *mon.Case) {
 				flavour = flavDisjoint
 			}
 		}
+		if mode == modeGlobalStorm {
+			G = 4 + r.Intn(5)
+			flavour = flavDisjoint
+		}
 		pm := int32(r.Intn(3))
-		progs := genPrograms(r, G, flavour, storm)
+		progs := genPrograms(r, G, flavour, mode)
 
 		// sequential reference: ONE sequential order of all evaluations (program 0
 		// completely, then program 1, ...) on a fresh interpreter. The programs
@@ -302,6 +326,12 @@ func runBatch(storm bool) func(c *mon.Case) {
 		// additionally running a program ALONE on a fresh interpreter.
 		pauseMode.Store(0)
 		solo, soloLoaded, wantIncs := runSerial(progs, flavour)
+		for name := range soloLoaded {
+			if strings.HasPrefix(name, "!shared-global-name ") {
+				c.Inconclusive("generator-guard:" + name)
+				return
+			}
+		}
 		touched := map[string]int{} // module -> number of goroutines whose program may evaluate it
 		for k := range progs {
 			var all []string
@@ -466,7 +496,10 @@ func runBatch(storm bool) func(c *mon.Case) {
 		if c.I < 8 {
 			kind := "batch-" + []string{"preloaded", "disjoint", "contended"}[flavour]
 			if storm {
-				kind = "storm-" + kind
+				kind = "use-storm-" + kind
+			}
+			if mode == modeGlobalStorm {
+				kind = "global-storm"
 			}
 			c.Sample(kind, map[string]any{"programs": progs[:2], "goroutines": G, "sequential_results_goroutine0": solo[0]})
 		}
@@ -486,10 +519,12 @@ func Spec() *mon.Spec {
 		},
 		ChildSetup: childSetup,
 		Phases: []mon.Phase{
-			{Name: "mixed2", Quick: 48, Thorough: 1500, Run: runBatch(false), GoMaxProcs: 2},
-			{Name: "mixed8", Quick: 48, Thorough: 1500, Run: runBatch(false), GoMaxProcs: 8},
-			{Name: "storm4", Quick: 48, Thorough: 1000, Run: runBatch(true), GoMaxProcs: 4},
-			{Name: "storm16", Quick: 24, Thorough: 500, Run: runBatch(true), GoMaxProcs: 16},
+			{Name: "mixed2", Quick: 48, Thorough: 1500, Run: runBatch(modeMixed), GoMaxProcs: 2, Timeout: 300 * time.Second},
+			{Name: "mixed8", Quick: 48, Thorough: 1500, Run: runBatch(modeMixed), GoMaxProcs: 8, Timeout: 300 * time.Second},
+			{Name: "storm4", Quick: 48, Thorough: 1000, Run: runBatch(modeUseStorm), GoMaxProcs: 4, Timeout: 300 * time.Second},
+			{Name: "storm16", Quick: 24, Thorough: 500, Run: runBatch(modeUseStorm), GoMaxProcs: 16, Timeout: 300 * time.Second},
+			{Name: "globals4", Quick: 48, Thorough: 1500, Run: runBatch(modeGlobalStorm), GoMaxProcs: 4, Timeout: 300 * time.Second},
+			{Name: "globals16", Quick: 24, Thorough: 500, Run: runBatch(modeGlobalStorm), GoMaxProcs: 16, Timeout: 300 * time.Second},
 		},
 		Floors: map[string]int{},
 	}
